@@ -29,7 +29,7 @@ def run(tier, seed):
     q = tier == "quick"
     chk = vkit.Check("C31", tier, seed)
     rnd = random.Random(seed)
-    exe = vkit.cc("ws_drv", ["ws_drv.c"])
+    exe = ws.driver()
     st = ws.finding_status(chk)
     avoid = {k for k, key in (("K1", ws.K1), ("K3", ws.K3)) if st.get(key) == "open"}
     k2_open = st.get(ws.K2) == "open"
@@ -45,10 +45,12 @@ def run(tier, seed):
         F(n=1, lim=130, fins=(1,), ops=(1, 9), masks=(0, 1), lens=((7, 1), (16, 126), (16, 2), (64, 3), (64, 131), (16, 131)), his=(0, 1, 2)),
     ]
     if not q:
-        dec_fams += [F(n=3, lim=2, ops=(0, 1, 2, 8, 9, 3), masks=(1,), lens=((7, 0), (7, 2), (7, 3))),
-                     F(n=2, lim=2, rsvs=(0, 4), ops=(0, 1, 2, 8, 9, 10, 3, 11), masks=(0, 1), lens=((7, 0), (7, 2), (7, 3), (16, 1)))]
+        dec_fams += [F(n=2, lim=2, rsvs=(0, 4), ops=(0, 1, 2, 8, 9, 10, 3, 11), masks=(0, 1), lens=((7, 0), (7, 2), (7, 3), (16, 1)))]
     ws.model_check_decoder(chk, "C31_dec", ws.consts(dec_fams, Mode="dec", Pols={1, 8} if q else {1, 2, 3, 5, 8}),
                            workers=8 if q else None)
+    if not q:
+        ws.model_check_decoder(chk, "C31_dec3", ws.consts([F(n=3, lim=2, ops=(0, 1, 2, 8, 9, 3), masks=(1,), lens=((7, 0), (7, 2), (7, 3)))],
+                                                          Mode="dec", Pols={1, 8}))
 
     # ---- 2. generated frame sequences, replayed on the real server
     plans = [
@@ -62,14 +64,14 @@ def run(tier, seed):
         # pairs: interleaving, fragments + control frames, things after a terminating frame
         dict(name="pair", f=F(n=2, ops=(0, 1, 2, 8, 9, 10, 3), masks=(1,) if q else (0, 1), lens=SMALL), singles=4 if q else None, multis=2),
         dict(name="pairlen", f=F(n=2, ops=(1, 2, 9), fins=(1,), masks=(0, 1), lens=((7, 1), (7, 125), (16, 126), (64, 65536)) if q else ALL_LENS),
-             singles=4 if q else 16, multis=1),
+             singles=4 if q else 8, multis=1),
         # longer sequences over a small alphabet
         dict(name="quad", f=F(n=4, ops=(1, 2, 9, 8) if q else (0, 1, 2, 9, 8), fins=(1,) if q else (0, 1), masks=(1,), lens=((7, 3),)),
-             singles=4 if q else 8, multis=2),
+             singles=4, multis=2),
     ]
     if not q:
         plans += [
-            dict(name="trip", f=F(n=3, ops=(0, 1, 2, 8, 9, 3), masks=(1,), lens=SMALL), singles=6, multis=2),
+            dict(name="trip", f=F(n=3, ops=(0, 1, 2, 8, 9, 3), masks=(1,), lens=((7, 0), (7, 5))), singles=3, multis=1),
             dict(name="pairrsv", f=F(n=2, ops=(1, 2, 8, 9), rsvs=(0, 4, 7), masks=(1,), lens=((7, 1), (16, 126), (16, 5))), singles=6, multis=1),
         ]
     nplan = len(plans)
